@@ -48,6 +48,22 @@ def api_facts(req_b64):
     out = {"ok": True, "version": a.naming.version, "proto_package": a.naming.proto_package,
            "specs": [[s["service"], s["rpc"], s["transport"], s["region_tag"]] for s in samplegen.generate_sample_specs(a, opts=opts)],
            "services": []}
+    # SnippetIndex: add one (empty-text) snippet per spec, with the metadata _fill_sample_metadata builds, then ask for both slots
+    try:
+        idx = snippet_index.SnippetIndex(a)
+        for sp in samplegen.generate_sample_specs(a, opts=opts):
+            sample = dict(sp, module_namespace=a.naming.module_namespace, module_name=a.naming.versioned_module_name)
+            idx.add_snippet(snippet_index.Snippet("", samplegen._fill_sample_metadata(sample, a)))
+        out["index"] = {}
+        for s in a.services.values():
+            for m in s.methods.values():
+                got = []
+                for sync in (True, False):
+                    sn = idx.get_snippet(s.name, m.name, sync=sync)
+                    got.append(sn.metadata.region_tag if sn is not None else None)
+                out["index"][f"{s.name}/{m.name}"] = got
+    except Exception as e:  # noqa
+        out["index_error"] = f"{type(e).__name__}: {e}"
     for s in a.services.values():
         sd = {"name": s.name, "host": s.host, "shortname": s.shortname, "client": s.client_name, "async_client": s.async_client_name,
               "methods": []}
